@@ -180,6 +180,9 @@ def dictionary(start_id):
     add([variant("A", ser=["Done"]), variant("B", ser=["Done!"]), variant("C", ser=["New York"]), variant("D", ser=["New York City"]),
          variant("E", ser=["a\"b"]), variant("F", ser=["a b"]), variant("G", ser=["a\\b"]), variant("H", ser=["a#b"]), variant("I", ser=["In Progress"]),
          variant("J", ser=["In Progress (blocked)"])])
+    # EnumString ignores the prefix altogether - also when a styled name happens to begin with it
+    add([variant("DarkBlack"), variant("Dark"), variant("Light"), variant("DarkRoom", dis=True)], prefix="dark_", style="snake_case")
+    add([variant("GetName"), variant("Name", ser=["nm"]), variant("Get")], prefix="get", style="camelCase")
     # more variants than a byte counts
     add([variant("Name%d" % k, aci=(1 if k % 50 == 3 else 2), dis=(k % 97 == 11)) for k in range(300)], style="kebab-case")
     # empty enum, single variant
